@@ -7,6 +7,7 @@ import (
 	"testing"
 
 	neatmath "github.com/yaricom/goNEAT/v4/neat/math"
+	"github.com/yaricom/goNEAT/v4/neat/network"
 	"pgregory.net/rapid"
 )
 
@@ -281,6 +282,9 @@ func CheckC18Module(c C18Module, rec *Rec) error {
 	if _, err := neatmath.NodeActivators.ActivateByType(c.Vec[0], nil, typ); err == nil {
 		return fmt.Errorf("scalar activation with the module type %s returned no error", moduleNames[c.Type])
 	}
+	if err := nestedModuleActivation(c); err != nil {
+		return err
+	}
 	rec.Class("type:" + moduleNames[c.Type])
 	if len(c.Vec) > 16 {
 		rec.Class("more than 16 inputs")
@@ -294,6 +298,64 @@ func CheckC18Module(c C18Module, rec *Rec) error {
 		rec.Class("all entries below -9.3e18")
 	}
 	rec.NonTrivial(hashOf(c.Type, len(c.Vec), math.Float64bits(c.Vec[0])>>36))
+	return nil
+}
+
+// nestedModuleActivation: network.ActivateModule of one module node while the activation of another module node is in
+// progress (the harness owns the schedule: the first module's activator, registered on a private factory, lets the second
+// activation run before it computes - what two evaluation goroutines do to each other at that point). Each module must
+// still receive the product of its own inputs.
+func nestedModuleActivation(c C18Module) error {
+	f := neatmath.NewNodeActivatorsFactory()
+	var hook func()
+	f.RegisterModule(neatmath.NodeActivationType(200), func(in []float64, _ []float64) []float64 {
+		if h := hook; h != nil {
+			hook = nil
+			h()
+		}
+		p := 1.0
+		for _, v := range in {
+			p *= v
+		}
+		return []float64{p}
+	}, "GatedProduct")
+	build := func(id int, vec []float64) (*network.NNode, *network.NNode) {
+		m := network.NewNNode(id, network.HiddenNeuron)
+		m.ActivationType = neatmath.NodeActivationType(200)
+		for i, v := range vec {
+			sn := network.NewSensorNode(1000*id+i, false)
+			sn.SensorLoad(v)
+			m.ConnectFrom(sn, 1)
+		}
+		out := network.NewNNode(id+1, network.OutputNeuron)
+		out.ConnectFrom(m, 1)
+		return m, out
+	}
+	other := make([]float64, 0, len(c.Vec)+1)
+	for i := len(c.Vec) - 1; i >= 0; i-- {
+		other = append(other, c.Vec[i]/2+1)
+	}
+	other = append(other, 3)
+	m1, out1 := build(10, c.Vec)
+	m2, out2 := build(20, other)
+	var innerErr error
+	hook = func() { innerErr = network.ActivateModule(m2, f) }
+	if err := network.ActivateModule(m1, f); err != nil || innerErr != nil {
+		return fmt.Errorf("ActivateModule returned (%v, nested %v)", err, innerErr)
+	}
+	want1, want2 := 1.0, 1.0
+	for _, v := range c.Vec {
+		want1 *= v
+	}
+	for _, v := range other {
+		want2 *= v
+	}
+	if got := out1.GetActiveOut(); !sameFloat(got, want1) {
+		return fmt.Errorf("ActivateModule over the inputs %v set the output to %v instead of the product %v (another module was activated while this one was in progress)", c.Vec, got, want1)
+	}
+	if got := out2.GetActiveOut(); !sameFloat(got, want2) {
+		return fmt.Errorf("the nested ActivateModule over the inputs %v set the output to %v instead of the product %v", other, got, want2)
+	}
 	return nil
 }
 
